@@ -56,7 +56,7 @@ impl rowan::Language for Lang {
 
 /// GreenNode is an immutable tree, which is cheap to change,
 /// but doesn't contain offsets and parent pointers.
-use rowan::{GreenNode, GreenToken};
+use rowan::GreenNode;
 
 /// You can construct GreenNodes by hand, but a builder
 /// is helpful for top-down parsers: it maintains a stack
@@ -406,6 +406,28 @@ type SyntaxToken = rowan::SyntaxToken<Lang>;
 #[allow(unused)]
 type SyntaxElement = rowan::NodeOrToken<SyntaxNode, SyntaxToken>;
 
+/// Detached tokens, ready to be spliced into a live tree with `splice_children`.
+///
+/// The tokens are built as the children of a throw-away node; they are collected
+/// before anything is spliced, since splicing an element detaches it from that node.
+fn detached_tokens(tokens: &[(SyntaxKind, &str)]) -> Vec<SyntaxElement> {
+    let mut builder = GreenNodeBuilder::new();
+    builder.start_node(ROOT.into());
+    for (kind, text) in tokens {
+        builder.token((*kind).into(), text);
+    }
+    builder.finish_node();
+    SyntaxNode::new_root_mut(builder.finish())
+        .children_with_tokens()
+        .collect()
+}
+
+/// A fresh, detached, mutable copy of a node: splicing it into a tree does not
+/// take the original out of the tree it belongs to.
+fn detached_copy(node: &SyntaxNode) -> SyntaxElement {
+    NodeOrToken::Node(SyntaxNode::new_root_mut(node.green().into_owned()))
+}
+
 impl Parse {
     fn root_mut(&self) -> Relations {
         Relations::cast(SyntaxNode::new_root_mut(self.green_node.clone())).unwrap()
@@ -625,11 +647,8 @@ impl Relations {
     pub fn insert(&mut self, idx: usize, entry: Entry) {
         let (position, new_children) = if let Some(current_entry) = self.entries().nth(idx) {
             // In front of an existing entry: always followed by a separator
-            let to_insert: Vec<NodeOrToken<GreenNode, GreenToken>> = vec![
-                entry.0.green().into(),
-                NodeOrToken::Token(GreenToken::new(COMMA.into(), ",")),
-                NodeOrToken::Token(GreenToken::new(WHITESPACE.into(), " ")),
-            ];
+            let mut to_insert = vec![detached_copy(&entry.0)];
+            to_insert.extend(detached_tokens(&[(COMMA, ","), (WHITESPACE, " ")]));
 
             (current_entry.0.index(), to_insert)
         } else {
@@ -645,32 +664,24 @@ impl Relations {
                     break;
                 }
             }
-            let mut to_insert: Vec<NodeOrToken<GreenNode, GreenToken>> = vec![];
-            match last.map(|l| l.kind()) {
+            let mut to_insert: Vec<SyntaxElement> = match last.map(|l| l.kind()) {
                 // nothing yet: no separator
-                None => {}
+                None => vec![],
                 // a trailing comma: reuse it
                 Some(COMMA) => {
                     if !trailing_whitespace {
-                        to_insert.push(NodeOrToken::Token(GreenToken::new(WHITESPACE.into(), " ")));
+                        detached_tokens(&[(WHITESPACE, " ")])
+                    } else {
+                        vec![]
                     }
                 }
-                Some(_) => {
-                    to_insert.push(NodeOrToken::Token(GreenToken::new(COMMA.into(), ",")));
-                    to_insert.push(NodeOrToken::Token(GreenToken::new(WHITESPACE.into(), " ")));
-                }
-            }
-            to_insert.push(entry.0.green().into());
+                Some(_) => detached_tokens(&[(COMMA, ","), (WHITESPACE, " ")]),
+            };
+            to_insert.push(detached_copy(&entry.0));
             (child_count, to_insert)
         };
-        // We can safely replace the root here since Relations is a root node
-        self.0 = SyntaxNode::new_root_mut(
-            self.0.replace_with(
-                self.0
-                    .green()
-                    .splice_children(position..position, new_children),
-            ),
-        );
+        // In place: handles to this field and to its entries obtained earlier stay valid
+        self.0.splice_children(position..position, new_children);
     }
 
     /// Replace the entry at the given index
@@ -1030,52 +1041,27 @@ impl Entry {
             .any(|n| n.kind() == PIPE || n.kind() == RELATION);
 
         let (position, new_children) = if let Some(current_relation) = self.relations().last() {
-            let to_insert: Vec<NodeOrToken<GreenNode, GreenToken>> = if is_empty {
-                vec![relation.0.green().into()]
+            let mut to_insert: Vec<SyntaxElement> = if is_empty {
+                vec![]
             } else {
-                vec![
-                    NodeOrToken::Token(GreenToken::new(WHITESPACE.into(), " ")),
-                    NodeOrToken::Token(GreenToken::new(PIPE.into(), "|")),
-                    NodeOrToken::Token(GreenToken::new(WHITESPACE.into(), " ")),
-                    relation.0.green().into(),
-                ]
+                detached_tokens(&[(WHITESPACE, " "), (PIPE, "|"), (WHITESPACE, " ")])
             };
+            to_insert.push(detached_copy(&relation.0));
 
             (current_relation.0.index() + 1, to_insert)
         } else {
             let child_count = self.0.children_with_tokens().count();
-            (
-                child_count,
-                if is_empty {
-                    vec![relation.0.green().into()]
-                } else {
-                    vec![
-                        NodeOrToken::Token(GreenToken::new(PIPE.into(), "|")),
-                        NodeOrToken::Token(GreenToken::new(WHITESPACE.into(), " ")),
-                        relation.0.green().into(),
-                    ]
-                },
-            )
+            let mut to_insert: Vec<SyntaxElement> = if is_empty {
+                vec![]
+            } else {
+                detached_tokens(&[(PIPE, "|"), (WHITESPACE, " ")])
+            };
+            to_insert.push(detached_copy(&relation.0));
+            (child_count, to_insert)
         };
 
-        let new_root = SyntaxNode::new_root_mut(
-            self.0
-                .green()
-                .splice_children(position..position, new_children),
-        );
-
-        if let Some(parent) = self.0.parent() {
-            parent.splice_children(self.0.index()..self.0.index() + 1, vec![new_root.into()]);
-            self.0 = parent
-                .children_with_tokens()
-                .nth(self.0.index())
-                .unwrap()
-                .clone()
-                .into_node()
-                .unwrap();
-        } else {
-            self.0 = new_root;
-        }
+        // In place: handles to this entry and to its relations obtained earlier stay valid
+        self.0.splice_children(position..position, new_children);
     }
 }
 
@@ -1447,26 +1433,10 @@ impl Relation {
                 } else {
                     0
                 };
-                let new_children = vec![
-                    GreenToken::new(WHITESPACE.into(), " ").into(),
-                    builder.finish().into(),
-                ];
-                let new_root = SyntaxNode::new_root_mut(
-                    self.0.green().splice_children(idx..idx, new_children),
-                );
-                if let Some(parent) = self.0.parent() {
-                    parent
-                        .splice_children(self.0.index()..self.0.index() + 1, vec![new_root.into()]);
-                    self.0 = parent
-                        .children_with_tokens()
-                        .nth(self.0.index())
-                        .unwrap()
-                        .clone()
-                        .into_node()
-                        .unwrap();
-                } else {
-                    self.0 = new_root;
-                }
+                let mut new_children = detached_tokens(&[(WHITESPACE, " ")]);
+                new_children.push(SyntaxNode::new_root_mut(builder.finish()).into());
+                // In place: handles to this relation obtained earlier stay valid
+                self.0.splice_children(idx..idx, new_children);
             }
         } else if let Some(current_version) = current_version {
             // Remove any whitespace before the version token
@@ -1649,25 +1619,10 @@ impl Relation {
             } else {
                 self.0.children_with_tokens().count()
             };
-            let new_root = SyntaxNode::new_root_mut(self.0.green().splice_children(
-                idx..idx,
-                vec![
-                    GreenToken::new(WHITESPACE.into(), " ").into(),
-                    builder.finish().into(),
-                ],
-            ));
-            if let Some(parent) = self.0.parent() {
-                parent.splice_children(self.0.index()..self.0.index() + 1, vec![new_root.into()]);
-                self.0 = parent
-                    .children_with_tokens()
-                    .nth(self.0.index())
-                    .unwrap()
-                    .clone()
-                    .into_node()
-                    .unwrap();
-            } else {
-                self.0 = new_root;
-            }
+            let mut new_children = detached_tokens(&[(WHITESPACE, " ")]);
+            new_children.push(SyntaxNode::new_root_mut(builder.finish()).into());
+            // In place: handles to this relation obtained earlier stay valid
+            self.0.splice_children(idx..idx, new_children);
         }
     }
 
@@ -1707,25 +1662,10 @@ impl Relation {
             Some(last_profiles) => last_profiles.index() + 1,
             None => self.0.children_with_tokens().count(),
         };
-        let new_root = SyntaxNode::new_root_mut(self.0.green().splice_children(
-            idx..idx,
-            vec![
-                GreenToken::new(WHITESPACE.into(), " ").into(),
-                builder.finish().into(),
-            ],
-        ));
-        if let Some(parent) = self.0.parent() {
-            parent.splice_children(self.0.index()..self.0.index() + 1, vec![new_root.into()]);
-            self.0 = parent
-                .children_with_tokens()
-                .nth(self.0.index())
-                .unwrap()
-                .clone()
-                .into_node()
-                .unwrap();
-        } else {
-            self.0 = new_root;
-        }
+        let mut new_children = detached_tokens(&[(WHITESPACE, " ")]);
+        new_children.push(SyntaxNode::new_root_mut(builder.finish()).into());
+        // In place: handles to this relation obtained earlier stay valid
+        self.0.splice_children(idx..idx, new_children);
     }
 
     /// Build a new relation
